@@ -78,6 +78,15 @@ const (
 	ExitInconclusive = 2
 )
 
+// OutRoot is where work files, evidence and replay files are written (default: Root). The
+// mutant self-test points it elsewhere so that it never rewrites the real evidence.
+func OutRoot() string {
+	if r := os.Getenv("VERIF_OUT"); r != "" {
+		return r
+	}
+	return Root()
+}
+
 func watchdog(tier string) time.Duration {
 	if s := os.Getenv("VERIF_WATCHDOG_S"); s != "" {
 		if n, err := strconv.Atoi(s); err == nil {
@@ -95,7 +104,8 @@ func watchdog(tier string) time.Duration {
 func Drive(c *Check, tier string, seed int64) int {
 	start := time.Now()
 	root := Root()
-	outdir := filepath.Join(root, "work", c.ID)
+	oroot := OutRoot()
+	outdir := filepath.Join(oroot, "work", c.ID)
 	os.RemoveAll(outdir)
 	if err := os.MkdirAll(outdir, 0o755); err != nil {
 		fmt.Println("cannot create work dir:", err)
@@ -269,7 +279,7 @@ func Drive(c *Check, tier string, seed int64) int {
 	if total.NViol > 0 {
 		code = ExitViolation
 		verdict = "violated"
-		rdir := filepath.Join(root, "replays", c.ID)
+		rdir := filepath.Join(oroot, "replays", c.ID)
 		os.MkdirAll(rdir, 0o755)
 		for i, v := range total.Violations {
 			p := filepath.Join(rdir, fmt.Sprintf("%s-%s-seed%d-%d.json", tier, sanitize(v.Kind), seed, i))
@@ -291,8 +301,8 @@ func Drive(c *Check, tier string, seed int64) int {
 		Verdict: verdict, Known: knownOut, RepoHead: repoHead(),
 	}
 	b, _ := json.MarshalIndent(ev, "", " ")
-	os.MkdirAll(filepath.Join(root, "evidence"), 0o755)
-	if err := os.WriteFile(filepath.Join(root, "evidence", c.ID+".json"), b, 0o644); err != nil {
+	os.MkdirAll(filepath.Join(oroot, "evidence"), 0o755)
+	if err := os.WriteFile(filepath.Join(oroot, "evidence", c.ID+".json"), b, 0o644); err != nil {
 		fmt.Println("cannot write evidence:", err)
 		if code == ExitOK {
 			code = ExitInconclusive
